@@ -10,6 +10,8 @@
                    sites build a two-element list headed by that symbol
   R-CLOSE-PARAM    closing delimiters are compared with the opener's partner everywhere (shared with C10)
   R-NUM-BOUNDARY   a number token is only produced when the following byte is a delimiter or end of input
+  R-OPT-SETTERS    each Options builder method, evaluated over the options' finite domains, makes the accessor
+                   of its option answer the argument and leaves all other accessors' answers unchanged
 Not decided: the declarative token classifier as behaviour; pairwise equality of results.
 """
 from .. import classes, common, facts as F, lex, sim
@@ -57,6 +59,7 @@ def run(ctx):
     c10.close_param(ctx, lexpr, ctx.rule("R-CLOSE-PARAM", "closing delimiters are compared with the opener's partner in "
                                                            "every position, for parentheses and brackets alike"))
     num_boundary(ctx, lexpr, pt)
+    opt_setters(ctx, lexpr)
 
 
 def _unknown_reader(S, fn, bb, t, args, path):
@@ -632,3 +635,192 @@ def num_boundary(ctx, lexpr, pt):
             r.ok("%s: the byte after the literal is inspected before Token::Number is returned" % label, pt)
         else:
             r.violation(pt.path, "number-path-missing:%s" % label, "no path of parse_token (%s) returns a number" % label, pt.loc())
+
+
+def opt_setters(ctx, lexpr):
+    """The builder methods of Options against its accessors, by abstract evaluation over the options' finite domains:
+    `with_x(v)` makes `x()` answer v and leaves every other accessor's answer as it was; `with_keyword_syntax(s)` adds
+    s to the enabled keyword spellings; `with_keyword_syntaxes(list)` makes exactly the listed spellings enabled.
+    Setters and accessors are paired through their public names (`with_` + accessor name)."""
+    from ..sim import Ref, Tup
+    r = ctx.rule("R-OPT-SETTERS", "each Options builder method sets the option its name and documentation say - as seen "
+                                  "through the accessor of that option - and leaves the answers of all other accessors "
+                                  "unchanged; with_keyword_syntax adds a spelling, with_keyword_syntaxes sets the list")
+    OPT = "parse::Options"
+    a = lexpr.adts.get(OPT)
+    if a is None:
+        r.anchor_missing(OPT)
+        return
+    fields = a["variants"][0]["fields"]
+    KS = "syntax::KeywordSyntax"
+
+    def domain(ty):
+        if ty == "bool":
+            return [0, 1]
+        d = lexpr.adts.get(ty)
+        if d and d["kind"] == "enum" and all(not v["fields"] for v in d["variants"]):
+            return [Adt(ty, v["idx"], [], v["name"]) for v in d["variants"]]
+        return None
+
+    ks = domain(KS)
+    if not ks:
+        r.anchor_missing(KS)
+        return
+    member = [f for f in lexpr.fns if f.path.startswith(OPT + "::") and f.is_pub and "{closure" not in f.path]
+    ty = lambda f, i: f.locals[i]["ty"]
+    getters = {f.path.rsplit("::", 1)[1]: f for f in member
+               if (f.arg_count == 1 and ty(f, 1) == OPT and domain(ty(f, 0)))
+               or (f.arg_count == 2 and ty(f, 1) == OPT and ty(f, 2) == KS and ty(f, 0) == "bool")}
+    setters = {f.path.rsplit("::", 1)[1]: f for f in member if f.arg_count == 2 and ty(f, 1) == OPT and ty(f, 0) == OPT}
+    inl = lambda x, b: b.crate == lexpr.name and (b.path.startswith(OPT + "::") or b.path.startswith(KS + "::"))
+
+    def hook(S, fn, bb, t, args, path):
+        nm = F.callee_names(t)
+        if "std::borrow::Borrow::borrow" in nm and args:
+            v = S._deref(args[0], path)
+            if isinstance(v, Adt) and v.adt == KS:
+                return ("value", Ref([v], 0, ()))
+        return None
+
+    def ev(fn, *args):
+        S = sim.Sim([lexpr], hooks={"call": hook}, inline=inl, max_depth=8, max_paths=400, max_visits=12)
+        try:
+            ps = S.run(fn, args={i + 1: x for i, x in enumerate(args)})
+        except sim.Limit:
+            return None
+        outs = []
+        for p in ps:
+            if p.end != "return":
+                return None
+            outs.append(S._deref(p.ret, p))
+        if len(outs) != 1:
+            # several paths: they must agree
+            if not outs or any(key(o) != key(outs[0]) for o in outs):
+                return None
+        return outs[0]
+
+    def key(v):
+        if isinstance(v, int):
+            return v
+        if isinstance(v, Adt) and v.adt == OPT:
+            return tuple(key(x) for x in v.fields)
+        if isinstance(v, Adt) and not v.fields:
+            return (v.adt, v.variant)
+        return None
+
+    def show(v):
+        if isinstance(v, Adt) and not v.fields:
+            return v.vname or str(v.variant)
+        return repr(v)
+
+    # the flag bits as the crate computes them: every subset of spellings is a prior state of the keyword option
+    def fresh(state):
+        return Adt(OPT, 0, [Adt(x.adt, x.variant, [], x.vname) if isinstance(x, Adt) else x for x in state])
+
+    def observe(o):
+        """Answers of all accessors on an Options value: {name or (name, spelling): answer key}."""
+        out = {}
+        for gname, g in getters.items():
+            if g.arg_count == 1:
+                out[gname] = key(ev(g, fresh(o.fields)))
+            else:
+                for s in ks:
+                    out[(gname, s.vname)] = key(ev(g, fresh(o.fields), s))
+        return out
+
+    new = lexpr.fn(OPT + "::new")
+    base = ev(new) if new is not None else None
+    if not (isinstance(base, Adt) and base.adt == OPT and key(base) is not None and all(k is not None for k in key(base))):
+        r.anchor_missing("Options::new evaluates to a concrete value")
+        return
+    # prior states: the defaults, and each field in turn at each of its values; the keyword spellings additionally
+    # as every subset, built with the crate's own flag computation
+    doms = []
+    for i, f in enumerate(fields):
+        d = domain(f["ty"])
+        doms.append(d)
+    kw_setter = None
+    for sname, sf in setters.items():
+        if ty(sf, 2) == KS:
+            kw_setter = sf
+    priors = [("defaults", base)]
+    for i, d in enumerate(doms):
+        for v in d or []:
+            st = list(base.fields)
+            st[i] = v
+            priors.append(("%s = %s" % (fields[i]["name"], show(v)), fresh(st)))
+    if kw_setter is not None:
+        import itertools
+        for n in range(1, len(ks) + 1):
+            for sub in itertools.combinations(ks, n):
+                o = fresh(base.fields)
+                for s in sub:
+                    o = ev(kw_setter, o, s)
+                    if o is None:
+                        break
+                if o is not None and key(o) is not None:
+                    priors.append(("keywords " + "+".join(s.vname for s in sub), o))
+    r.floor("prior-states", len(priors))
+    n = und = pairs = 0
+    for sname, sf in sorted(setters.items()):
+        aty = ty(sf, 2)
+        gname = sname[5:] if sname.startswith("with_") else None
+        target = getters.get(gname) if gname else None
+        mode = "set"
+        if aty == KS:
+            mode, argvals = "add", [("%s" % s.vname, s, [s]) for s in ks]
+            target = target or getters.get("keyword_syntax")
+            gname = [k for k, g in getters.items() if g is target][0] if target else None
+        elif domain(aty):
+            argvals = [(show(v), v, None) for v in domain(aty)]
+        else:
+            # a generic list of spellings: arrays by value and by reference
+            import itertools
+            tgt2 = [g for k, g in getters.items() if g.arg_count == 2]
+            if not (gname and gname.rstrip("es") and tgt2):
+                r.note("builder %s: parameter type %s is not evaluated" % (sname, aty))
+                continue
+            target, mode, argvals = tgt2[0], "list", []
+            gname = [k for k, g in getters.items() if g is target][0]
+            for k in range(0, len(ks) + 1):
+                for sub in itertools.combinations(ks, k):
+                    argvals.append(("[%s]" % ", ".join(s.vname for s in sub), Tup(list(sub)), list(sub)))
+                    argvals.append(("&[%s]" % ", ".join(s.vname for s in sub), Ref([Tup(list(sub))], 0, ()), list(sub)))
+        if target is None:
+            r.note("builder %s has no accessor named %s: not evaluated" % (sname, gname))
+            continue
+        pairs += 1
+        for pname, prior in priors:
+            before = observe(prior)
+            for aname, aval, members in argvals:
+                n += 1
+                res = ev(sf, fresh(prior.fields), aval)
+                if not (isinstance(res, Adt) and res.adt == OPT and key(res) is not None and None not in key(res)):
+                    und += 1
+                    r.note("undecided: %s(%s) on %s" % (sname, aname, pname))
+                    continue
+                after = observe(res)
+                want = dict(before)
+                if mode == "set":
+                    want[gname] = key(aval)
+                else:
+                    for s in ks:
+                        on = s.vname in [m.vname for m in members]
+                        want[(gname, s.vname)] = 1 if on else (before[(gname, s.vname)] if mode == "add" else 0)
+                if None in after.values() or None in before.values():
+                    und += 1
+                    r.note("undecided: accessors after %s(%s) on %s" % (sname, aname, pname))
+                    continue
+                diff = sorted((str(k) for k in want if after.get(k) != want[k]))
+                if not diff:
+                    r.ok("%s(%s) on %s" % (sname, aname, pname), sf)
+                else:
+                    r.violation(sf.path, "setter:%s:%s" % (aname, "+".join(diff)),
+                                "Options::%s(%s) applied to options with %s: the accessor(s) %s do not answer as documented "
+                                "afterwards (%s)" % (sname, aname, pname, ", ".join(diff),
+                                                     "; ".join("%s: %s, documented %s" % (k, after.get(k), want[k])
+                                                               for k in want if after.get(k) != want[k])[:300]),
+                                sf.loc())
+    r.floor("builder-accessor-pairs", pairs)
+    r.floor("setter-cases", n)
+    r.floor("setter-decided", n - und)
